@@ -394,11 +394,12 @@ def _var_names_not_mutated(prog, rep, rule):
 def r9_4(prog, rep, rule="R9.4"):
     f = prog.fn("terms.terms.Model.var_names")
     summ = shared.union_summary(f)
+    modelled = summ is not None
     if summ is None:
         rep.defer(f"{rule}: {f.qual} builds its set in a way the union algebra does not model")
         summ = frozenset()
     each = {c for c in summ if c[0] == "each"}
-    obl(rep, f, f.node, rule, ("each", "self.terms", "$.var_names", None) in each and len(each) == 1,
+    obl(rep, f, f.node, rule, not modelled or (("each", "self.terms", "$.var_names", None) in each and len(each) == 1),
         "Model.var_names collects from every term in self.terms", f"contributions {sorted(map(str, summ))}",
         f"Model.var_names does not unite the variables of all of self.terms, unfiltered: contributions {sorted(map(str, summ))}")
     t = prog.fn("terms.terms.Model.terms")
@@ -408,7 +409,7 @@ def r9_4(prog, rep, rule="R9.4"):
         f"Model.terms returns `{unparse(rets[0].value) if rets else None}`: variables of some terms are not counted as used")
     resp = {c for c in summ if c[0] == "one" and c[1] == "self.response.var_names"}
     okr = len(resp) == 1 and next(iter(resp))[2] in ("self.response is not None", "self.response", "not (self.response is None)", "not (not self.response)")
-    obl(rep, f, f.node, rule, okr, "Model.var_names includes the response's variables", "",
+    obl(rep, f, f.node, rule, okr or not modelled, "Model.var_names includes the response's variables", "",
         "the response is not counted as a used variable (its missing values would not be filtered)")
     obl(rep, f, f.node, rule, len(summ) == 2 or not okr, "Model.var_names returns exactly those two contributions", nontrivial=False)
     g = prog.fn("terms.terms.GroupSpecificTerm.var_names")
